@@ -285,6 +285,15 @@ proof fn lemma_rev_stdout(a: State, mid: State, fin: State, n: nat)
         assert(rev_w(&b, &mid, k + n));
     }
 }
+//@use cursor.fns ::intercept_output
+// ASSUMED stubs: UTF-8 decoding (String::from_utf8 + error bookkeeping), the file system
+#[verifier::external_body] fn decode_utf8_str(bytes: Vec<u8>) -> Xresult1<String> { unimplemented!() }
+#[verifier::external_body] fn verif_cow_into_owned(c: std::borrow::Cow<'_, [u8]>) -> (r: Vec<u8>) ensures r@ == cow_bytes(c) { unimplemented!() }
+#[verifier::external_body] fn verif_fs_write_all(path: &Xstr, s: &Bitstr) -> Xresult { unimplemented!() }
+#[verifier::external_body] fn verif_fs_read_all(path: &Xstr) -> (r: Xresult1<Vec<u8>>) ensures r is Ok ==> r->Ok_0@.len() * 8 <= usize::MAX { unimplemented!() }
+//@use cursor.fns ::bitstr_to_utf8
+//@use cursor.fns ::word_write
+//@use cursor.fns ::word_read_all
 //@use cursor.fns ::dump_bitstr_at
 //@use cursor.fns ::word_dump
 //@use cursor.fns ::word_dump_at
@@ -545,6 +554,9 @@ fn lemma_zero85_pair(xs: &mut State)
 //@use words.fns ::load#w_hex_tobitstr
 //@use words.fns ::load#w_dump
 //@use words.fns ::load#w_dump_at
+//@use words.fns ::load#w_bitstr_toutf8
+//@use words.fns ::load#w_write_all
+//@use words.fns ::load#w_read_all
 // the data words of the word table (Rword)
 //@use words.fns ::load#w_u8
 //@use words.fns ::load#w_u8_bang
